@@ -4,6 +4,7 @@ package c15
 import (
 	"encoding/json"
 	"fmt"
+	"sync"
 	"testing"
 
 	"github.com/paulsonkoly/chess-3/board"
@@ -36,7 +37,7 @@ type Case struct {
 
 type slot struct {
 	bucket int
-	sig    uint16
+	sig    uint64
 }
 
 type ment struct {
@@ -73,7 +74,38 @@ type world struct {
 	rebased int
 }
 
-func sigOf(key uint64) uint16 { return uint16(key >> 48) }
+// sigBits lists the bits of a key that make up its signature, learnt once from the table itself: on a
+// one-bucket table a stored key is probed with each single bit flipped; the flips that turn the hit into a miss
+// are the signature bits (the pinned implementation: the top 16). Which bits of the key the table keeps as the
+// signature is its own business; the property only speaks of "bucket and signature".
+var sigBits = sync.OnceValue(func() []uint {
+	def := []uint{48, 49, 50, 51, 52, 53, 54, 55, 56, 57, 58, 59, 60, 61, 62, 63}
+	t := transp.New(32)
+	const k0 = uint64(0xa5c3a5c3a5c3a5c3)
+	var bits []uint
+	for i := uint(0); i < 64; i++ {
+		t.Clear()
+		t.Insert(board.Hash(k0), 0, 1, 0, 1, 0, transp.Exact)
+		if _, hit := t.LookUp(board.Hash(k0)); !hit || t.VerifBuckets() != 1 {
+			return def
+		}
+		if _, hit := t.LookUp(board.Hash(k0 ^ 1<<i)); !hit {
+			bits = append(bits, i)
+		}
+	}
+	if len(bits) == 0 || len(bits) > 32 {
+		return def
+	}
+	return bits
+})
+
+func sigOf(key uint64) uint64 {
+	var s uint64
+	for i, b := range sigBits() {
+		s |= (key >> b & 1) << uint(i)
+	}
+	return s
+}
 
 func (w *world) slotOf(key uint64) slot {
 	return slot{w.t.VerifBucketIx(board.Hash(key)), sigOf(key)}
@@ -328,6 +360,7 @@ func lanes(w uint64, key uint16) (int, bool) {
 
 func TestC15(t *testing.T) {
 	evid.Main(t, "C15", func(rec *evid.Rec) {
+		rec.Note("signature bits of a key, learnt from a one-bucket table: %v", sigBits())
 		rec.Rule("model-based sequences (<=250 ops) of store / probe / clear / resize-then-clear / resize-without-clear / new-search (8 bit generation wraps) on tables of 1, 2, 3, 32, 1024 and 32768 buckets; keys from a pool built to collide: 8 low words x 9 signatures (incl. 0, 1, 0x7fff, 0x8000, 0xffff) x 4 middle words, so same-bucket/different-signature, same-signature/different-bucket and indistinguishable aliases all occur; depth 0..63, ply 0..63, three bound types, null and non-null moves, values over the whole range with weight on 0, the band just inside +-(Inf-MaxPlies) and the mate bands (for the two exact boundary values either consistent reading - re-based or not - is accepted). Model: map (bucket index via hook, signature) -> last accepted store with keep-deeper refusal and kept move; after every store every modelled slot of the bucket is probed: hits equal the model (mate values re-based), at most one other slot vanished, the stored slot hits; probes of unmodelled non-zero signatures must miss. Zero signatures: only 'immediate probe hits and reflects the store (or the deeper same-search entry)' and 'hits return something stored under a zero signature or the empty entry'. After resize without clear nothing is judged but panics. Lane matcher checked directly against a four-lane loop. Non-trivial = sequence with an eviction, a keep-deeper refusal, a kept move or a re-based mate value; distinct by sequence")
 		rec.Assume("hooks transp.VerifBucketIx / VerifBuckets / VerifMatch64 (build tag verif) only read; victim choice is left free as in the property")
 		rec.Rapid(t, "sequence", evid.Pick(80000, 1500000), func(t *rapid.T) {
